@@ -18,7 +18,7 @@ pub const LINES: &[&str] = &[
     "DIM A(10)", "DIM A(10),B$(5,5),C%(2,3,4)", "ERASE A", "ERASE A,B$", "SWAP A,B", "SWAP A$(1),B$",
     "DEF FNA(X)=X*2", "DEF FNB(X,Y)=X+Y", "DEF FNC$(A$)=A$+A$", "DEF FND()=1", "DEFINT A", "DEFINT A-C", "DEFSNG X", "DEFDBL D-F", "DEFSTR S",
     "INPUT A", "INPUT \"NAME\";A$", "INPUT \"A,B\";A,B", "INPUT ,A", "INPUT ,\"P\";A$,B(1)", "INPUT \"X\" A",
-    "LIST", "LIST 10", "LIST 10-", "LIST -20", "LIST 10-20", "DELETE 10", "DELETE 10-20", "DELETE -20", "DELETE 10-",
+    "LIST", "LIST 10", "LIST 10-", "LIST -20", "LIST 10-20", "DELETE 10", "DELETE 10-20", "DELETE -20", "DELETE 10-", "DELETE", "DELETE:PRINT 1", "PRINT 1:DELETE :PRINT 2", "IF 1 THEN DELETE ELSE PRINT 2", "IF 0 THEN PRINT 1 ELSE DELETE:PRINT 3", "DELETE ELSE", "LIST:PRINT 1", "IF 1 THEN LIST ELSE PRINT 2",
     "RENUM", "RENUM 100", "RENUM 100,10", "RENUM 100,10,5", "RENUM ,,5", "RENUM 100,,5",
     "RUN", "RUN 100", "RUN \"FILE\"", "LOAD \"FILE\"", "SAVE \"FILE\"",
     "REM a comment: PRINT 1", "' another", "PRINT 1 ' trailing", "PRINT 1:REM x", "A=1:B=2:C=3", ":::", "A=1::B=2",
